@@ -2766,3 +2766,89 @@ Proof.
   - rewrite !app_length. unfold reclen. lia.
 Qed.
 Print Assumptions cell_offsets_point_at_cells_lemma.
+
+(* ================================================================== what the repetition field denotes *)
+Lemma iota_one : iota 1 = [0%Z]. Proof. reflexivity. Qed.
+
+Lemma lattice_rows1 n v1 v2 : lattice n 1 v1 v2 = map (fun i => ((i * fst v1)%Z, (i * snd v1)%Z)) (iota (N.to_nat n)).
+Proof.
+  unfold lattice. change (N.to_nat 1) with 1%nat. rewrite iota_one.
+  induction (iota (N.to_nat n)) as [|i t IH]; [reflexivity|]. cbn [flat_map map app] in *. rewrite IH. f_equal. f_equal; lia.
+Qed.
+Lemma lattice_cols1 m v1 v2 : lattice 1 m v1 v2 = map (fun j => ((j * fst v2)%Z, (j * snd v2)%Z)) (iota (N.to_nat m)).
+Proof.
+  unfold lattice. change (N.to_nat 1) with 1%nat. rewrite iota_one. cbn [flat_map]. rewrite app_nil_r.
+  apply map_ext. intros j. f_equal; lia.
+Qed.
+
+Lemma prefix_sums_ptdiffs l : forall p, prefix_sums_pt p (ptdiffs p l) = l.
+Proof.
+  induction l as [|q t IH]; intros p; [reflexivity|]. cbn [ptdiffs prefix_sums_pt]. unfold padd. cbn [fst snd].
+  replace ((fst p + (fst q - fst p))%Z, (snd p + (snd q - snd p))%Z) with q by (destruct q; cbn [fst snd]; f_equal; lia).
+  rewrite IH. reflexivity.
+Qed.
+Lemma prefix_sums_zdiffs l : forall p, (0 <= p)%Z -> sorted_z (p :: l) ->
+  map Z.of_N (prefix_sums_N (Z.to_N p) (map Z.to_N (zdiffs p l))) = l.
+Proof.
+  induction l as [|c t IH]; intros p Hp Hs; [reflexivity|]. cbn [sorted_z] in Hs. destruct Hs as [H1 H2].
+  cbn [zdiffs map prefix_sums_N]. replace (Z.to_N p + Z.to_N (c - p)) with (Z.to_N c) by lia.
+  rewrite (IH c ltac:(lia) H2). rewrite Z2N.id by lia. reflexivity.
+Qed.
+
+(* the offsets of an ExplicitX / ExplicitY repetition come back in ascending order *)
+Definition wrep_offsets_sorted (r : wrep) : list pt :=
+  match r with
+  | WExplX cs => (0, 0)%Z :: map (fun c => (c, 0%Z)) (sort_z cs)
+  | WExplY cs => (0, 0)%Z :: map (fun c => (0%Z, c)) (sort_z cs)
+  | _ => wrep_offsets r
+  end.
+
+Theorem view_rep_offsets_lemma r : wrep_ok r -> has_rep r = true ->
+  rep_offsets (view_rep_body r) = wrep_offsets_sorted r.
+Proof.
+  intros Hok Hh. unfold has_rep in Hh.
+  destruct r as [|c rw sx sy|c rw v1 v2|offs|cs|cs]; cbn [rep_count wrep_ok wrep_offsets_sorted wrep_offsets view_rep_body] in *.
+  - discriminate.
+  - destruct Hok as (Hc & Hr & Hx & Hy). pose proof (has_rep_rect c rw Hc Hr Hh) as Hone.
+    destruct (1 <? c) eqn:Ec; cbn [andb].
+    + apply N.ltb_lt in Ec. destruct (1 <? rw) eqn:Er.
+      * apply N.ltb_lt in Er. destruct (0 <=? sx)%Z eqn:Ex; cbn [andb]; [destruct (0 <=? sy)%Z eqn:Ey|]; cbn [rep_offsets].
+        -- apply Z.leb_le in Ex, Ey. rewrite !Z2N.id by lia. replace (c - 2 + 2) with c by lia. replace (rw - 2 + 2) with rw by lia.
+           reflexivity.
+        -- replace (c - 2 + 2) with c by lia. replace (rw - 2 + 2) with rw by lia. reflexivity.
+        -- replace (c - 2 + 2) with c by lia. replace (rw - 2 + 2) with rw by lia. reflexivity.
+      * assert (rw = 1).
+        { apply N.ltb_ge in Er. apply N.ltb_lt in Hh. assert (E : rw = 0 \/ rw = 1) by lia. destruct E as [-> | ->]; [|reflexivity].
+          rewrite N.mul_0_r in Hh. rewrite N.mod_0_l in Hh by (rewrite two64_val; lia). lia. }
+        subst rw. rewrite lattice_rows1. cbn [fst snd].
+        destruct (0 <=? sx)%Z eqn:Ex; cbn [rep_offsets]; replace (c - 2 + 2) with c by lia; rewrite lattice_rows1; cbn [fst snd].
+        -- apply Z.leb_le in Ex. rewrite Z2N.id by lia. reflexivity.
+        -- reflexivity.
+    + destruct (Hone eq_refl) as [-> Hrw]. rewrite lattice_cols1. cbn [fst snd].
+      destruct (0 <=? sy)%Z eqn:Ey; cbn [rep_offsets]; replace (rw - 2 + 2) with rw by lia.
+      * apply Z.leb_le in Ey. rewrite lattice_cols1. cbn [fst snd]. rewrite Z2N.id by lia. reflexivity.
+      * rewrite lattice_rows1. cbn [fst snd]. reflexivity.
+  - destruct Hok as (Hc & Hr & H1 & H2). pose proof (has_rep_rect c rw Hc Hr Hh) as Hone.
+    destruct (1 <? c) eqn:Ec; cbn [andb].
+    + apply N.ltb_lt in Ec. destruct (1 <? rw) eqn:Er; cbn [rep_offsets].
+      * apply N.ltb_lt in Er. replace (c - 2 + 2) with c by lia. replace (rw - 2 + 2) with rw by lia. reflexivity.
+      * assert (rw = 1).
+        { apply N.ltb_ge in Er. apply N.ltb_lt in Hh. assert (E : rw = 0 \/ rw = 1) by lia. destruct E as [-> | ->]; [|reflexivity].
+          rewrite N.mul_0_r in Hh. rewrite N.mod_0_l in Hh by (rewrite two64_val; lia). lia. }
+        subst rw. replace (c - 2 + 2) with c by lia. rewrite !lattice_rows1. reflexivity.
+    + destruct (Hone eq_refl) as [-> Hrw]. cbn [rep_offsets]. replace (rw - 2 + 2) with rw by lia.
+      rewrite lattice_rows1, lattice_cols1. reflexivity.
+  - cbn [rep_offsets grid_of]. rewrite prefix_sums_ptdiffs. f_equal. rewrite <- (map_id offs) at 2. apply map_ext.
+    intros [a b]. cbn [fst snd]. f_equal; lia.
+  - destruct Hok as (_ & Hf). cbn [rep_offsets grid_of]. f_equal.
+    pose proof (sort_z_sorted cs) as Hs. pose proof (sort_z_Forall _ cs Hf) as Hsf.
+    rewrite <- (prefix_sums_zdiffs (sort_z cs) 0 ltac:(lia)) at 2.
+    + rewrite !map_map. apply map_ext. intros x. f_equal. lia.
+    + destruct (sort_z cs) as [|c0 t]; [cbn; auto|]. cbn [sorted_z]. split; [|exact Hs]. inversion Hsf; subst. lia.
+  - destruct Hok as (_ & Hf). cbn [rep_offsets grid_of]. f_equal.
+    pose proof (sort_z_sorted cs) as Hs. pose proof (sort_z_Forall _ cs Hf) as Hsf.
+    rewrite <- (prefix_sums_zdiffs (sort_z cs) 0 ltac:(lia)) at 2.
+    + rewrite !map_map. apply map_ext. intros x. f_equal. lia.
+    + destruct (sort_z cs) as [|c0 t]; [cbn; auto|]. cbn [sorted_z]. split; [|exact Hs]. inversion Hsf; subst. lia.
+Qed.
+Print Assumptions view_rep_offsets_lemma.
